@@ -82,7 +82,7 @@ func corpus(r *rand.Rand) []string {
 	return qs
 }
 
-var opNames = []string{"Parse", "ToPostgres", "ToParameterizedPostgres", "Render(shared)", "RenderParam(shared)", "String(shared)", "GoString(shared)", "Marshal(shared)", "Validate(shared)", "NewDriver.Render(shared)", "ParseDF", "Render(own)", "Parse(shared option)", "ToParameterizedPostgres(shared option)"}
+var opNames = []string{"Parse", "ToPostgres", "ToParameterizedPostgres", "Render(shared)", "RenderParam(shared)", "String(shared)", "GoString(shared)", "Marshal(shared)", "Validate(shared)", "NewDriver.Render(shared)", "ParseDF", "Render(own)", "Parse(shared option)", "ToParameterizedPostgres(shared option)", "Parse(first of a shared option slice)", "Parse(whole shared option slice)"}
 
 var sharedDriver = driver.NewPostgresDriver()
 
@@ -90,6 +90,35 @@ var sharedDriver = driver.NewPostgresDriver()
 // argument, using it must not change it (the names hold backslashes and padding on purpose)
 var sharedOptA = lucene.WithDefaultField(`d\\f`)
 var sharedOptB = lucene.WithDefaultField(" x\\\\y ")
+
+// a slice of options with spare capacity behind the part that is passed: the library may read
+// the options it is given, not write behind them
+var sharedOptSlice = sliceOf(lucene.WithDefaultField("first"), lucene.WithDefaultField("second"), lucene.WithDefaultField("third"))
+
+func sliceOf[T any](xs ...T) []T { return xs }
+
+func decoded(doc string) func() *expr.Expression {
+	return func() *expr.Expression {
+		var e expr.Expression
+		if json.Unmarshal([]byte(doc), &e) != nil {
+			return expr.Lit("undecodable")
+		}
+		return &e
+	}
+}
+
+var handBuilt = []func() *expr.Expression{
+	func() *expr.Expression { return expr.BOOST(expr.Eq("a", "b"), -2.5) },
+	func() *expr.Expression { return expr.BOOST(expr.Lit("x"), 0) },
+	func() *expr.Expression { return expr.FUZZY(expr.Lit("x"), -1) },
+	func() *expr.Expression { return expr.FUZZY(expr.Eq("a", "b"), 0) },
+	func() *expr.Expression { return expr.AND(expr.BOOST(expr.Lit("x"), -1), expr.NOT(expr.FUZZY(expr.Lit("y"), 0))) },
+	decoded(`{"left":"a","operator":"BOOST","power":0}`),
+	decoded(`{"left":{"left":"a","operator":"BOOST","power":-3},"operator":"NOT"}`),
+	decoded(`{"left":"a","operator":"FUZZY","distance":-2}`),
+	func() *expr.Expression { return expr.Rang("a", 5, 1, true) },
+	func() *expr.Expression { return expr.IN("a", expr.LIST([]*expr.Expression{expr.Lit("x"), expr.Lit("x")})) },
+}
 
 // runOp executes operation op on query index qi and returns a canonical description of the result.
 func runOp(op int, q string, shared *expr.Expression) (res string) {
@@ -117,6 +146,12 @@ func runOp(op int, q string, shared *expr.Expression) (res string) {
 	case 13:
 		s, p, err := lucene.ToParameterizedPostgres(q, sharedOptB)
 		return fmt.Sprintf("%s|%#v|%v", s, p, err)
+	case 14:
+		e, err := lucene.Parse(q, sharedOptSlice[:1]...)
+		return fmt.Sprintf("%#v|%v", e, err)
+	case 15:
+		e, err := lucene.Parse(q, sharedOptSlice...)
+		return fmt.Sprintf("%#v|%v", e, err)
 	case 11:
 		e, err := lucene.Parse(q)
 		if err != nil {
@@ -151,7 +186,7 @@ func runOp(op int, q string, shared *expr.Expression) (res string) {
 	return "?"
 }
 
-const nOps = 14
+const nOps = 16
 
 var coldDone bool
 
@@ -309,6 +344,14 @@ func (c14) RunBatch(ctx *core.Ctx, batch int) {
 		shared[i], _ = lucene.Parse(q)
 		printed[i] = fmt.Sprintf("%#v", shared[i])
 		twins[i], _ = lucene.Parse(q)
+	}
+	// expressions only a constructor or a decoder can build (amounts Parse never produces): they
+	// are shared, printed, validated and encoded like the others and must come out untouched
+	for _, mk := range handBuilt {
+		qs = append(qs, "a")
+		shared = append(shared, mk())
+		twins = append(twins, mk())
+		printed = append(printed, fmt.Sprintf("%#v", shared[len(shared)-1]))
 	}
 	ctx.Case("expressions returned earlier are not changed by later calls to Parse", func() {
 		for i, q := range qs {
